@@ -900,7 +900,7 @@ func c09Replay(r *Run, path string) {
 			if _, _, _, _, ok := c09OpnParse(w); ok {
 				opnOps = append(opnOps, line)
 			}
-		case "fn", "txt":
+		case "fn", "txt", "arr":
 			if j, ok := c09JobOfLine(line); ok {
 				jobs = append(jobs, j)
 			}
